@@ -434,6 +434,9 @@ func (w *world) decided(o op) {
 	w.out.Op("DECIDED", "%d %d %s %s %d %d", o.h, o.r, o.variant, ids(o.signers), b2i(valid), b2i(looks))
 	w.out.Count("decided-" + o.variant)
 	before := w.highest()
+	heightBefore := uint64(w.ctrl.Height)
+	held := w.ctrl.StoredInstances.FindInstance(specqbft.Height(o.h)) != nil
+	recorded := w.historical(o.h) != "-"
 	err := w.run.ProcessConsensus(logger, msg)
 	res := "dec-ok"
 	switch {
@@ -457,7 +460,33 @@ func (w *world) decided(o op) {
 		w.validRound[o.h][o.r] = true
 	}
 	w.checkStore(before, "decided")
+	if valid {
+		w.checkPersisted(o.h, heightBefore, held, recorded, "decided")
+	}
 	w.obs(res, w.historical(o.h))
+}
+
+// clause (b), what "survives a restart" needs: a height learned decided that is not below the
+// controller height is in the highest record afterwards (or a higher one is).  Two coded exceptions:
+// height 0 (a refused second start of slot 0 clears the runner's running instance, so its local
+// decision is not saved), and a full node that finds only a historical record of that height
+// (InstanceForHeight returns a throw-away instance; UponDecided then saves nothing).
+func (w *world) checkPersisted(h, heightBefore uint64, held, recorded bool, what string) {
+	if h < heightBefore {
+		return
+	}
+	hi := w.highest()
+	if hi.ok && hi.h >= h {
+		return
+	}
+	switch {
+	case h == 0:
+		w.out.Note("height-0 exception: height 0 decided (%s) but not stored; stored=%s", what, hi)
+	case w.full && !held && recorded:
+		w.out.Note("full-node exception: height %d decided (%s) again, found only as a historical record, not stored as highest; stored=%s", h, what, hi)
+	default:
+		w.out.ViolF("c15b not-persisted op=%s h=%d height-before=%d stored=%s", what, h, heightBefore, hi)
+	}
 }
 
 func b2i(b bool) int {
@@ -494,6 +523,7 @@ func (w *world) local(h uint64, signers []uint64) {
 	}
 	dec := inst.State.Decided
 	if dec {
+		w.checkPersisted(h, uint64(w.ctrl.Height), true, false, "local")
 		if w.life[h] == "" || w.life[h] == "started" {
 			w.life[h] = "decided locally"
 		}
